@@ -126,7 +126,7 @@ TEXT = {
               'detection, goroutine-leak inspection, outcome model'},
     'C15': {'text': 'Exploration over instants in virtual time: cancellation or deadline expiry before any operation, between any two operations, while a Send is blocked '
          '(payload larger than every buffer), while a Receive or a typed call is blocked, and within ±1 ns of a handler reply, × 3 protocols × {in-memory, '
-         "real h2c/HTTP/1.1} with optional delays at yield points; plus handlers returning the context package's sentinels. Oracle: operations started after "
+         "real h2c/HTTP/1.1} with optional delays at yield points; plus handlers returning the context package's sentinels; a raw peer that stalls after 1..4 bytes of the next envelope prefix (or inside a payload) when the context ends; and the server-side view (handler deadline from the propagated timeout, or request-context cancellation, ending before user code runs or while it waits), judged on the raw response with the independent decoder. Oracle: operations started after "
          'the instant fail; every failure at or after it carries canceled / deadline_exceeded (Send may return the io.EOF-wrapping error); nothing hangs; the '
          'handler does not keep running; no library goroutine remains.',
  'design_ref': 'DESIGN.md §5 C15',
